@@ -31,13 +31,14 @@ type orch struct {
 	findings *core.FindingsFile
 	known    string
 
-	mu       sync.Mutex
-	trouble  []string
-	sums     map[string][]*Summary // engine -> worker summaries
-	deaths   []VRec
-	races    []VRec // verified by the race detector itself, not by replay
-	lostRuns int64
-	extra    map[string]interface{} // engine-specific evidence (external engines)
+	mu                 sync.Mutex
+	trouble            []string
+	sums               map[string][]*Summary // engine -> worker summaries
+	deaths             []VRec
+	races              []VRec // verified by the race detector itself, not by replay
+	lostRuns           int64
+	skippedAfterDeaths int
+	extra              map[string]interface{} // engine-specific evidence (external engines)
 }
 
 func (o *orch) bin(variant string) string { return filepath.Join(o.bindir, "orbsim-"+variant) }
@@ -135,6 +136,18 @@ func (o *orch) runEngine(e *props.Engine) {
 			for attempt := 0; attempt < 20; attempt++ {
 				if e.Variant == "race" && attempt >= 3 {
 					return // three reports from this worker's share are enough
+				}
+				o.mu.Lock()
+				confirmed := len(o.deaths)
+				o.mu.Unlock()
+				if attempt > 0 && confirmed >= 3 {
+					// the code under test keeps bringing workers down (each death costs a watchdog
+					// period plus a confirmation run): three confirmed deaths decide the check,
+					// the rest of this worker's share is not explored
+					o.mu.Lock()
+					o.skippedAfterDeaths++
+					o.mu.Unlock()
+					return
 				}
 				next, done := o.spawnWorker(e, w, attempt, start, uint64(nw), limit, minRuns, deadline, recIdx)
 				if done {
@@ -584,30 +597,31 @@ func (o *orch) finish(t0 time.Time, detOK bool, detN int) int {
 
 	wall := time.Since(t0).Seconds()
 	cov := map[string]interface{}{
-		"evaluations":         runs,
-		"distinct_nontrivial": len(nontriv),
-		"rule":                p.Rule,
-		"samples":             samples,
-		"runs":                runs,
+		"evaluations":                runs,
+		"distinct_nontrivial":        len(nontriv),
+		"rule":                       p.Rule,
+		"samples":                    samples,
+		"runs":                       runs,
 		"runs_lost_to_worker_deaths": o.lostRuns,
-		"seeds":               fmt.Sprintf("VERIF_SEED=%d; run i of engine e uses splitmix64(VERIF_SEED ^ fnv(property/e)) + i", o.seedInt),
-		"runs_per_hour":       int64(float64(runs) / wall * 3600),
-		"logical_steps":       steps,
-		"workload_operations": ops,
-		"choice_draws":        draws,
-		"simulated_time":      "n/a: nothing in orb reads a clock or sets a timer; logical steps (events) are reported instead",
-		"fault_counts":        faults,
-		"context_switches":    switches,
-		"distinct_schedules":  len(scheds),
-		"distinct_states":     len(states),
-		"distinct_states_def": p.StateDef,
-		"probes":              probes,
-		"components":          map[string]interface{}{"real": nonNil(p.Real), "stub": nonNil(p.Stub), "instrumented": nonNil(p.Instr)},
-		"engines":             perEngine,
-		"known_findings":      nonNil(knownLines),
-		"violation_classes":   vcounts,
-		"determinism_recheck": map[string]interface{}{"runs_repeated_in_fresh_process": detN, "all_digests_equal": detOK},
-		"exhaustive":          false,
+		"worker_shares_skipped_after_three_confirmed_deaths": o.skippedAfterDeaths,
+		"seeds":                   fmt.Sprintf("VERIF_SEED=%d; run i of engine e uses splitmix64(VERIF_SEED ^ fnv(property/e)) + i", o.seedInt),
+		"runs_per_hour":           int64(float64(runs) / wall * 3600),
+		"logical_steps":           steps,
+		"workload_operations":     ops,
+		"choice_draws":            draws,
+		"simulated_time":          "n/a: nothing in orb reads a clock or sets a timer; logical steps (events) are reported instead",
+		"fault_counts":            faults,
+		"context_switches":        switches,
+		"distinct_schedules":      len(scheds),
+		"distinct_states":         len(states),
+		"distinct_states_def":     p.StateDef,
+		"probes":                  probes,
+		"components":              map[string]interface{}{"real": nonNil(p.Real), "stub": nonNil(p.Stub), "instrumented": nonNil(p.Instr)},
+		"engines":                 perEngine,
+		"known_findings":          nonNil(knownLines),
+		"violation_classes":       vcounts,
+		"determinism_recheck":     map[string]interface{}{"runs_repeated_in_fresh_process": detN, "all_digests_equal": detOK},
+		"exhaustive":              false,
 		"distinct_sets_saturated": saturated,
 	}
 	if len(p.Spaces) > 0 {
